@@ -150,13 +150,14 @@ func c13() {
 			forceRemove(dir)
 		}
 	})
+	c13HasherFaults(r, scratch)
 	r.Assume("every created, deleted or modified path of a step is reported (lstat listing before/after each edit united with the edit script's own paths), plus its parent directory; core.Scan closes the set over ancestors itself")
 	r.Assume("every content change alters size, mtime (>= 1 s bump), inode or type by construction of the edit script")
 	r.Assume("the cold reference scan is tied to the filesystem by C12")
 	if r.Counter("steps_reusing_baseline_directories") == 0 {
 		r.Inconclusive("no accelerated scan re-used a baseline directory")
 	}
-	r.Finish("random disk trees followed by histories of edit steps (create, mkdir, in-place edit, chmod, delete, rename, replace by new inode, single-attribute content changes (only inode / only mtime / only size differs), file<->directory, symlink create/retarget, empty-directory replacement, add child; 1..30 edits per step, also inside ignored directories) under both ignore syntaxes; after every step core.Scan(baseline = previous accelerated snapshot, recheck = changed paths [+ random extra paths], previous digest and ignore caches) must succeed and be proto.Equal to a cold scan; accelerated outputs feed the next step; non-trivial = step with at least one effective edit; distinct = (syntax, sorted edit operations of the step, baseline directories re-used or not, extras)", 60)
+	r.Finish("random disk trees followed by histories of edit steps (create, mkdir, in-place edit, chmod, delete, rename, replace by new inode, single-attribute content changes (only inode / only mtime / only size differs), file<->directory, in-place edit two or more levels below a directory that is reported too, directory removed and re-created with the same layout and sizes but new content, symlink create/retarget, empty-directory replacement, add child; 1..30 edits per step, also inside ignored directories) under both ignore syntaxes; after every step core.Scan(baseline = previous accelerated snapshot, recheck = changed paths [+ random extra paths], previous digest and ignore caches) must succeed and be proto.Equal to a cold scan; accelerated outputs feed the next step; plus histories with ONE hasher object shared by all scans in which a scan is cancelled while hashing a 40 MiB file or a file grows while it is hashed, after which the accelerated scan with that hasher must equal a cold scan with a fresh one; non-trivial = step with at least one effective edit; distinct = (syntax, sorted edit operations of the step, baseline directories re-used or not, extras)", 60)
 }
 
 func c13History(r *vk.Run, rng *rand.Rand, h, steps int, root string) {
@@ -178,6 +179,7 @@ func c13History(r *vk.Run, rng *rand.Rand, h, steps int, root string) {
 	}
 	tree := fsx.RandomTree(rng, fsx.TreeConfig{MaxEntries: 10 + rng.Intn(50), MaxDepth: 2 + rng.Intn(3), MaxFileSize: 16 << 10,
 		Links: true, Fifos: rng.Intn(2) == 0, NonUTF8: rng.Intn(3) == 0, Temporaries: rng.Intn(3) == 0})
+	c13AddNest(rng, tree)
 	fmt.Printf("C13 history %d config=%s entries=%d\n", h, vk.JSON(cfg), len(tree))
 	if err := fsx.Materialize(root, tree); err != nil {
 		r.Inconclusive("tree could not be materialized")
@@ -209,13 +211,23 @@ func c13History(r *vk.Run, rng *rand.Rand, h, steps int, root string) {
 		step := c13Step{Step: s}
 		before := listing(root)
 		atScan, shaAtScan := before, fileDigests(root, before)
+		var forced []string // directories reported in addition to a deep descendant
 		for e := 0; e < nEdits; e++ {
 			var ed fsx.Edit
 			var paths []string
 			var err error
-			if rng.Intn(4) == 0 {
+			switch roll := rng.Intn(16); {
+			case roll < 4:
 				ed, paths = c13SingleAttributeEdit(rng, root)
-			} else {
+			case roll == 4:
+				var D string
+				ed, paths, D = c13DeepEdit(rng, root, prev.Snapshot.Content)
+				if D != "" {
+					forced = append(forced, D)
+				}
+			case roll == 5:
+				ed, paths = c13RecreateDirectory(rng, root)
+			default:
 				ed, paths, err = fsx.RandomEdit(rng, root)
 			}
 			if err != nil {
@@ -247,6 +259,10 @@ func c13History(r *vk.Run, rng *rand.Rand, h, steps int, root string) {
 				r.Count("precondition_repaired_by_mtime_bump", 1)
 			}
 		}
+		// Parents are what a fanotify watcher names for create/delete/rename;
+		// core.Scan closes the set over ancestors itself, so adding them or not
+		// must make no difference. Half of the steps report the changed paths only.
+		withParents := rng.Intn(2) == 0
 		recheck := map[string]bool{}
 		for p := range changed {
 			// the endpoint drops watcher events for temporary names
@@ -254,7 +270,14 @@ func c13History(r *vk.Run, rng *rand.Rand, h, steps int, root string) {
 				continue
 			}
 			recheck[p] = true
-			recheck[parentOf(p)] = true
+			if withParents {
+				recheck[parentOf(p)] = true
+			}
+		}
+		for _, D := range forced {
+			// only meaningful while the deep path is still there and reported
+			recheck[D] = true
+			r.Count("steps_reporting_directory_and_deep_descendant", 1)
 		}
 		// optional extra paths: existing ones, vanished ones, nonsense
 		if rng.Intn(3) == 0 {
